@@ -52,36 +52,67 @@ SkipD(P, j, skip) == IF skip /\ j <= Len(P) /\ P[j].k = "DocType" THEN SkipD(P, 
 
 DeEvErr(e) == <<"Err", e>>
 \* collect the text run starting at payload i; returns [txt, next, err]
-RECURSIVE Drain(_, _, _, _, _)
-Drain(doc, P, i, acc, skip) ==
+\* ent = the deserializer's EntityResolver ("predef" = PredefinedEntityResolver, "custom" = Escape!CustomEnt): EVERY Text
+\* piece of a run - the first one and the continuation pieces after a comment / PI / CDATA / DOCTYPE - is unescaped with it
+RECURSIVE DrainE(_, _, _, _, _, _)
+DrainE(doc, P, i, acc, skip, ent) ==
     \* P[i] is Text/CData, already taken.  la = effective lookahead index.
     LET la == SkipD(P, i + 1, skip)
         last == ~IsTextual(P, la)
         e == P[i]
         hi == IF e.k = "Text" /\ last THEN TrimEndTo(doc, e.lo, e.hi) ELSE e.hi
-        piece == IF e.k = "Text" THEN Unesc(Slice(doc, e.lo, hi)) ELSE [ok |-> TRUE, out |-> Slice(doc, e.lo, e.hi), e |-> ""] IN
+        piece == IF e.k = "Text" THEN UnescFromE(Slice(doc, e.lo, hi), 0, ent) ELSE [ok |-> TRUE, out |-> Slice(doc, e.lo, e.hi), e |-> ""] IN
     IF ~piece.ok THEN [txt |-> <<>>, next |-> la, err |-> "Escape"]
     ELSE IF last THEN [txt |-> acc \o piece.out, next |-> la, err |-> ""]
-    ELSE Drain(doc, P, la, acc \o piece.out, skip)
+    ELSE DrainE(doc, P, la, acc \o piece.out, skip, ent)
+Drain(doc, P, i, acc, skip) == DrainE(doc, P, i, acc, skip, "predef")
 
-RECURSIVE DeRun(_, _, _, _)
-DeRun(doc, P, i, skip) ==
+RECURSIVE DeRunE(_, _, _, _, _)
+DeRunE(doc, P, i, skip, ent) ==
     IF i > Len(P) THEN <<>>
     ELSE LET e == P[i] IN
-    CASE e.k = "Start" -> <<<<"Start", e.lo, e.hi, e.n>>>> \o DeRun(doc, P, i + 1, skip)
-      [] e.k = "End" -> <<<<"End", e.lo, e.hi, 0>>>> \o DeRun(doc, P, i + 1, skip)
-      [] e.k = "DocType" -> DeRun(doc, P, i + 1, skip)
+    CASE e.k = "Start" -> <<<<"Start", e.lo, e.hi, e.n>>>> \o DeRunE(doc, P, i + 1, skip, ent)
+      [] e.k = "End" -> <<<<"End", e.lo, e.hi, 0>>>> \o DeRunE(doc, P, i + 1, skip, ent)
+      [] e.k = "DocType" -> DeRunE(doc, P, i + 1, skip, ent)
       [] e.k = "Eof" -> <<<<"Eof", 0, 0, 0>>>>
       [] e.k = "Err" -> <<<<"Err", 0, 0, 0>>>>
       [] OTHER ->    \* Text / CData
             LET la == SkipD(P, i + 1, skip) IN
             IF e.k = "Text" /\ ~IsTextual(P, la) /\ TrimEndTo(doc, e.lo, e.hi) = e.lo
-            THEN DeRun(doc, P, la, skip)                                  \* became empty: skipped
-            ELSE LET d == Drain(doc, P, i, <<>>, skip) IN
+            THEN DeRunE(doc, P, la, skip, ent)                            \* became empty: skipped
+            ELSE LET d == DrainE(doc, P, i, <<>>, skip, ent) IN
                  IF d.err # "" THEN <<<<"Err", 0, 0, 0>>>>
-                 ELSE <<<<"Text", d.txt>>>> \o DeRun(doc, P, d.next, skip)
+                 ELSE <<<<"Text", d.txt>>>> \o DeRunE(doc, P, d.next, skip, ent)
+DeRun(doc, P, i, skip) == DeRunE(doc, P, i, skip, "predef")
 
 DeEvents(doc, skip) == DeRun(doc, Payloads(doc), 1, skip)
+DeEventsE(doc, skip, ent) == DeRunE(doc, Payloads(doc), 1, skip, ent)
+\* ---- a consumer: a SEQUENCE OF OPTIONS as the top-level target (SeqAccess for &mut Deserializer + deserialize_option).
+\* An item is None for an empty text (it can only come from <![CDATA[]]>) - and that event is consumed -, otherwise Some(..) of
+\* whatever the inner type makes of the next event (a text: that event; a start tag: at most its subtree; anything else is an
+\* error that ends the run).  Every item consumes at least one event, so the sequence ends: the number of items, or -1 when it
+\* does not end.  dev "C07-1": None WITHOUT consuming the event - the defect repaired by fix commit 44f306a - never ends.
+RECURSIVE SubtreeEnd(_, _, _)
+SubtreeEnd(D, i, depth) ==      \* index just after the End that closes the Start at i (or after the last event)
+    IF i > Len(D) THEN i
+    ELSE IF D[i][1] = "Start" THEN SubtreeEnd(D, i + 1, depth + 1)
+    ELSE IF D[i][1] = "End" THEN (IF depth = 1 THEN i + 1 ELSE SubtreeEnd(D, i + 1, depth - 1))
+    ELSE IF D[i][1] \in {"Eof", "Err"} THEN i
+    ELSE SubtreeEnd(D, i + 1, depth)
+RECURSIVE RootOptItems(_, _, _, _)
+RootOptItems(D, i, fuel, dev) ==
+    IF fuel = 0 THEN -1
+    ELSE IF i > Len(D) \/ D[i][1] \in {"Eof", "Err", "End"} THEN 0
+    ELSE IF D[i][1] = "Text" /\ D[i][2] = <<>> THEN
+         LET r == RootOptItems(D, IF "C07-1" \in dev THEN i ELSE i + 1, fuel - 1, dev) IN IF r < 0 THEN -1 ELSE r + 1
+    ELSE LET j == IF D[i][1] = "Start" THEN SubtreeEnd(D, i, 0) ELSE i + 1
+             r == RootOptItems(D, j, fuel - 1, dev) IN IF r < 0 THEN -1 ELSE r + 1
+
+\* what a String target gets from a document that is one element with (possibly no) character content: [known, text]
+StringOf(D) ==
+    IF Len(D) = 4 /\ D[1][1] = "Start" /\ D[2][1] = "Text" /\ D[3][1] = "End" /\ D[4][1] = "Eof" THEN [known |-> TRUE, text |-> D[2][2]]
+    ELSE IF Len(D) = 3 /\ D[1][1] = "Start" /\ D[2][1] = "End" /\ D[3][1] = "Eof" THEN [known |-> TRUE, text |-> <<>>]
+    ELSE [known |-> FALSE, text |-> <<>>]
 \* what an EntityResolver is asked to capture: the content of every DOCTYPE the reader delivers, in order (the
 \* deserializer may stop before it has seen all of them: what a run captures is a prefix of this list)
 DocTypes(doc) == LET P == SelectSeq(Payloads(doc), LAMBDA e : e.k = "DocType") IN [i \in 1..Len(P) |-> Slice(doc, P[i].lo, P[i].hi)]
